@@ -172,7 +172,7 @@ func textStyles(r *rand.Rand) textStyle {
 	}
 }
 
-func genText(r *rand.Rand) c13Input {
+func genText(r *rand.Rand, long bool) c13Input {
 	in := c13Input{Format: "TEXT", Stream: "text", Metrics: genMetrics(r)}
 	st := textStyles(r)
 	in.Filters = st.filters
@@ -227,6 +227,12 @@ func genText(r *rand.Rand) c13Input {
 			b.WriteString("\r")
 		}
 		lines = append(lines, b.String())
+	}
+	if long && nl > 0 {
+		// one very long line (a progress bar redrawn with \r, a dumped tensor): longer than any fixed line buffer
+		k := r.Intn(len(lines))
+		pat := kit.Pick(r, []string{"=", "#\r", "0.5 "})
+		lines[k] = lines[k] + " " + strings.Repeat(pat, (66000+r.Intn(3000))/len(pat))
 	}
 	in.Content = []byte(strings.Join(lines, "\n"))
 	if r.Intn(3) == 0 && nl > 0 {
@@ -370,15 +376,18 @@ func genRaw(r *rand.Rand) c13Input {
 }
 
 func (c13) Gen(r *rand.Rand, i, n int) any {
+	if i%400 == 7 { // at least one log with a line longer than 64 KiB in every run (costly to evaluate: a few only)
+		return genText(r, true)
+	}
 	switch k := r.Intn(100); {
 	case k < 50:
-		return genText(r)
+		return genText(r, false)
 	case k < 87:
 		return genJSON(r)
 	case k < 99:
 		return genRaw(r)
 	default:
-		in := genText(r)
+		in := genText(r, false)
 		in.Format = kit.Pick(r, []string{"", "text", "YAML"})
 		in.Stream = "format"
 		return in
@@ -417,6 +426,49 @@ func cstr(s string) string {
 	}
 	b.WriteByte('"')
 	return b.String()
+}
+
+// ctext prints a long text as a concatenation of short literals and run-length segments (a string literal of tens of
+// kilobytes overflows Coq's parser stack): cat ["..."; rep_s 16500 "0.5 "; "..."].
+func ctext(s string) string {
+	if len(s) <= 3000 {
+		return cstr(s)
+	}
+	var segs []string
+	lit := 0 // start of the pending literal
+	flush := func(end int) {
+		for lit < end {
+			e := lit + 3000
+			if e > end {
+				e = end
+			}
+			segs = append(segs, cstr(s[lit:e]))
+			lit = e
+		}
+	}
+	i := 0
+	for i < len(s) {
+		best, bestP := 0, 0
+		for p := 1; p <= 4 && i+p <= len(s); p++ {
+			n := 1
+			for i+(n+1)*p <= len(s) && s[i+n*p:i+(n+1)*p] == s[i:i+p] {
+				n++
+			}
+			if n*p > best*bestP {
+				best, bestP = n, p
+			}
+		}
+		if best*bestP >= 512 {
+			flush(i)
+			segs = append(segs, fmt.Sprintf("rep_s %d%%N %s", best, cstr(s[i:i+bestP])))
+			i += best * bestP
+			lit = i
+			continue
+		}
+		i++
+	}
+	flush(len(s))
+	return "(cat [" + strings.Join(segs, "; ") + "])"
 }
 
 func bigZ(z *big.Int) string {
@@ -668,7 +720,7 @@ func (c13) Run(input any) kit.Case {
 		}
 	}
 
-	head := fmt.Sprintf("C13.Case %s %s %s %s %s", kit.Nat(format), kit.ListOf(in.Metrics, cstr), kit.List(filterIDs), kit.List(nocompile), cstr(content))
+	head := fmt.Sprintf("C13.Case %s %s %s %s %s", kit.Nat(format), kit.ListOf(in.Metrics, cstr), kit.List(filterIDs), kit.List(nocompile), ctext(content))
 	c.Coq = fmt.Sprintf("%s %s %s %s %s", head, kit.List(mt), kit.List(tt), kit.List(jt), impl)
 	c.Sig = head + " " + strings.Join(in.Filters, "\x00")
 	c.Nontrivial = nrec >= 2 || pan != "" || cerr != nil
@@ -682,6 +734,12 @@ func (c13) Run(input any) kit.Case {
 	}
 
 	c.Tags = append(c.Tags, "stream:"+in.Stream, "format:"+map[int]string{0: "TEXT", 1: "JSON", 2: "other"}[format])
+	for _, l := range lines {
+		if len(l) > 65536 {
+			c.Tags = append(c.Tags, "line-over-64KiB")
+			break
+		}
+	}
 	if format == 0 && in.Stream == "text" {
 		switch {
 		case len(in.Filters) == 0:
